@@ -137,6 +137,43 @@ def fixed_names(run, P, classes, rule="C08.reads"):
                    "that assign it, and what is read depends on the order chosen")
     if n < 5:
         raise AnalysisError("fixed_names: statement handlers not found")
+    # the same for everything else that can run while a statement is executing: only the
+    # driver (set_up / run, between statements) names store entries itself
+    drivers = {"set_up", "run"}
+    others = []
+    n_units = 0
+
+    def units_of(f_):
+        yield f_
+        for g_ in f_.nested.values():
+            yield from units_of(g_)
+
+    for name, f in sorted(interp.methods.items()):
+        if name in drivers or f.cls is not interp:
+            continue
+        for u in units_of(f):
+            n_units += 1
+            for x in ast.walk(u.node):
+                fixed = None
+                if isinstance(x, ast.Subscript) and isinstance(x.value, ast.Attribute) \
+                        and x.value.attr == "context" \
+                        and not any(isinstance(y, ast.Name) for y in ast.walk(x.slice)) \
+                        and any(isinstance(y, ast.Constant) and isinstance(y.value, str)
+                                for y in ast.walk(x.slice)):
+                    fixed = x
+                if isinstance(x, ast.Call) and isinstance(x.func, ast.Attribute) \
+                        and isinstance(x.func.value, ast.Attribute) and x.func.value.attr == "context" \
+                        and x.func.attr in ("get", "pop", "setdefault", "__getitem__") and x.args \
+                        and isinstance(x.args[0], ast.Constant) and isinstance(x.args[0].value, str):
+                    fixed = x
+                if fixed is not None:
+                    others.append((u, fixed))
+    run.ob(rule, others[0][0] if others else interp, others[0][1] if others else None, not others,
+           construct=f"outside set_up / run no code of the interpreter ({n_units} functions) touches "
+                     f"a store entry under a fixed name"
+                     + (f" (found {norm(others[0][1], 40)} in {others[0][0].qualname})" if others else ""),
+           why="a helper or wrapper that runs in the middle of a statement and looks at '<t>' "
+               "reads a variable the statement does not declare")
 
 
 def _callee_lookup(run, P, rule="C08.reads"):
